@@ -187,6 +187,12 @@ def check(ctx):
             elif pid in ("C02", "C07") and not oi.get("compiles") and gi["opts"]["d"].get("compiles"):
                 why = oi.get("compile_err") or oi.get("build_error") or oi.get("conv_err") or "?"
                 gen_problems.append((gid, o, "no runnable parser under this option set: " + why[:200]))
+    # the -switch pass itself (structural tie, needs no input): model rewrite of the default tree vs the implementation's tree
+    if pid == "C02":
+        for gid, gi in data["grammars"].items():
+            for a, d in core.compare_optimizer(gi):
+                rec = dict(g=gid, o="s", inputs=[""], kind="gen", cid="%s/s/opt" % gid, impl=gi["opts"]["s"].get("model"), model=gi["opts"]["d"].get("opt"), spec=None)
+                diffs.append((rec, a, d, False))
     # generator decisions (structural tie): C01 owns always-succeeds and nil slots, C02 inlining
     if pid in ("C01", "C02"):
         for gid, gi in data["grammars"].items():
